@@ -49,6 +49,58 @@ def K_HASH(tier_full="thorough"):
     return out
 
 
+
+# ---------------------------------------------------------------------------- layer M
+M_FUN = ["dbxxx.rs FileDbXxxInner::find_in_hash_buckets_kt"]
+M_TB = ["layer M runs the REAL src/filedb/inner/dbxxx.rs (re-read from /repo at every build) against abstract key/value/table stores written from the R=>M contract (kani/CONTRACTS.md): rewrite keeps the address iff the released sizing rule (spec::key_slot_chosen, shown equal to the crate's own computation for all inputs by k_kslot_*) fits the slot; dangling or freed addresses are assertion failures at the store",
+        "HashValue::hash_value is replaced (kani::stub) by the released placement hash of the bytes the key's derived Hash feeds to the hasher; harnesses k_hash_* show for all five key types and all keys up to 17 bytes that the crate's own hash_value() is that function",
+        "the prose induction of DESIGN 2: every harness starts from an arbitrary state built from solver variables that satisfies I2 and asserts I2 afterwards"]
+M_BOUNDS = "ANY valid pre-state with 0..2 live entries (thorough: 0..3) over 1 or 2 buckets in any chain order; every key of 0..2 tracked bytes (+ 0..12 untracked padding bytes that only count for the slot size), every value of 0..2 bytes with a solver-chosen monotone slot-class function; every 8-aligned record address in [192, 2^56) (so every offset-field width 2..8); every legal small slot size left behind by earlier rewrites"
+M_ASSUME = ["level M: structure bounds as stated per harness; store capacity 4 (5) record slots per file; values longer than 2 bytes are represented by their slot class only"]
+
+
+def M(name, what, cap=900, tier="quick", functions=None, may_unsat=None, big=False, **kw):
+    return H("m", name, what, tier=tier, cap=cap, mem_gb=14, stubbing=True, bounds=M_BOUNDS, functions=(functions or []) + M_FUN, assumptions=M_ASSUME,
+             may_unsat=may_unsat, features=["big"] if big else None, **kw)
+
+
+F_PUT = ["dbxxx.rs put_kt", "dbxxx.rs store_value_on_insert", "dbxxx.rs relink_moved_key", "dbxxx.rs find_prev_in_hash_bucket"]
+F_DEL = ["dbxxx.rs del_kt", "dbxxx.rs relink_moved_key", "dbxxx.rs find_prev_in_hash_bucket"]
+F_GET = ["dbxxx.rs get_kt", "dbxxx.rs includes_key_kt", "dbxxx.rs len", "lib.rs DbXxxBase::is_empty", "dbxxx.rs load_value"]
+F_IT = ["dbxxx.rs DbXxxIterMut::new", "dbxxx.rs DbXxxIterMut::next_piece_offset", "dbxxx.rs DbXxxIterMut::next", "dbxxx.rs size_hint (all five iterators)"]
+F_FL = ["dbxxx.rs flush", "dbxxx.rs sync_all", "dbxxx.rs sync_data", "dbxxx.rs is_dirty / dirty flag handling in open_with_params, put_kt, del_kt"]
+W_PUT_NEW = "put of an ABSENT key from any valid state = ideal map (value readable, len+1, an arbitrary other key unchanged), I2 afterwards, exactly one record added per file, no panic, loops terminate"
+W_PUT_OVER = "put of a PRESENT key: value replaced, every other entry unchanged, I2 afterwards also when the value record, the key record and (cascade) its chain predecessor move; moved records are freed exactly once"
+W_DEL_HIT = "delete of a PRESENT key at any chain position: returns the stored value, entry gone, others unchanged, both records freed, predecessor relinked (also when it has to move), I2 afterwards"
+W_DEL_MISS = "delete of an ABSENT key: None and no store is written at all (read-only latch)"
+W_LOOK = "get / includes_key / len / is_empty / read_fill_buffer / flush|sync on a clean handle = ideal map, under the read-only latch (any store write is a failure)"
+
+
+def M_KT(kt, tier="quick"):
+    return {
+        "put_new": M("m_put_new_" + kt, W_PUT_NEW, functions=F_PUT, tier=tier),
+        "put_over": M("m_put_over_" + kt, W_PUT_OVER, functions=F_PUT, tier=tier),
+        "del_hit": M("m_del_hit_" + kt, W_DEL_HIT, functions=F_DEL, tier=tier),
+        "del_miss": M("m_del_miss_" + kt, W_DEL_MISS, functions=F_DEL, tier=tier),
+        "lookup": M("m_lookup_" + kt, W_LOOK, functions=F_GET + F_FL, tier=tier),
+    }
+
+
+MB, MV, MS = M_KT("bytes"), M_KT("vu64"), M_KT("string")
+M_ITER = {n: M("m_%s_bytes" % n, "full traversal with %s: every live entry exactly once with its current value, exact size_hint before every step, len() items, None twice after the end, no store write" % d, functions=F_IT)
+          for n, d in [("iter_mut", "iter_mut()"), ("iter", "iter()"), ("into_iter", "into_iter()"), ("keys", "keys()"), ("values", "values()")]}
+M_ITER_X = [M("m_iter_mut_vu64", "traversal, DbVu64 keys (decoding comparison)", functions=F_IT, tier="thorough"), M("m_keys_vu64", "keys() yields the stored key bytes, DbVu64", functions=F_IT),
+            M("m_iter_string", "traversal, DbString keys", functions=F_IT), M("m_values_string", "values(), DbString keys", functions=F_IT, tier="thorough")]
+W_FL = "from a handle with nothing pending (or a freshly opened one): %s, then flush / sync_all / sync_data (solver's choice): on Ok no store holds unwritten updates, every modified file was flushed (and synced with the matching OS sync) AFTER its last write, in the order value, key, table"
+M_FLUSH = [M("m_flush_put_bytes", W_FL % "one put (new or existing key)", functions=F_FL + F_PUT), M("m_flush_del_bytes", W_FL % "one delete (present or absent key)", functions=F_FL + F_DEL),
+           M("m_flush_noop_bytes", W_FL % "no update", functions=F_FL, cap=300)]
+W_FA = "%s, then flush / sync_* with the 1st, 2nd or 3rd file's flush failing: the call returns Err, get still answers like the ideal map, the handle stays dirty and a later fault-free flush leaves no unwritten update"
+M_FAULT = [M("m_fault_put_bytes", W_FA % "one put", functions=F_FL + F_PUT), M("m_fault_del_bytes", W_FA % "one delete", functions=F_FL + F_DEL)]
+F_ST = ["dbxxx.rs key_piece_size_stats", "dbxxx.rs value_piece_size_stats", "dbxxx.rs key_length_stats", "dbxxx.rs value_length_stats", "filedb/mod.rs RecordSizeStats::touch_size", "filedb/mod.rs LengthStats::touch_length"]
+M_STATS = [M("m_stats_%s_bytes" % n, "%s over a store whose slot walk yields every slot (live or free) once: counts exactly the live non-empty records; read-only" % d, functions=F_ST, cap=900)
+           for n, d in [("klen", "key_length_stats"), ("vlen", "value_length_stats"), ("ksize", "key_piece_size_stats"), ("vsize", "value_piece_size_stats")]]
+M_SETUP = M("m_setup_reachable", "vacuity twin: the constructed pre-state is satisfiable in its largest shapes and satisfies I2", cap=300)
+
 PROPS = {}
 
 
@@ -73,3 +125,14 @@ prop("C12", K_HASH() + [K_VU64, K_SIGV], bounds="keys up to 17 bytes; all u64", 
 prop("C13", [K_SIGD, K_SIGUV, K_SIGV], bounds="", outside=[])
 prop("C07", [K_CAP, K_CAP0], bounds="", outside=[])
 prop("C06", [K_ROUNDUP, K_LISTS], bounds="", outside=[])
+
+R_M = "M-harness rule: one inductive step of the real dbxxx.rs from an arbitrary valid state; see DESIGN 2."
+prop("C01", [MB["put_new"], MB["put_over"], MB["del_hit"], MB["del_miss"], MB["lookup"], M_SETUP] + [M_KT("vu64", "thorough")[k] for k in ("put_new", "del_miss", "lookup")] + [M_KT("string", "thorough")[k] for k in ("put_new", "put_over", "del_hit")],
+     trusted_base=TB_COMMON + M_TB, rule=R_M, bounds=M_BOUNDS,
+     outside=["histories that need more than 3 simultaneously live entries in ONE inductive step (longer histories are covered by the induction)", "rabuf's chunking and eviction (dependency)", "I/O errors of a sick file system", "values/keys longer than the tracked bytes at level M: lengths up to 2^24/2^31 are decided at levels K and R"])
+prop("C08", [MV["put_over"], MV["del_hit"], K_KGROW, H("m", "m_put_over_bytes", W_PUT_OVER, tier="thorough", cap=900, stubbing=True, bounds=M_BOUNDS, functions=F_PUT), H("m", "m_del_hit_bytes", W_DEL_HIT, tier="thorough", cap=900, stubbing=True, bounds=M_BOUNDS, functions=F_DEL)],
+     trusted_base=TB_COMMON + M_TB, rule=R_M, bounds=M_BOUNDS, outside=["relocation cascades longer than the chain bound (2 at quick, 3 at thorough): the relink loop is verified for every chain of that length, longer chains repeat the same step"])
+prop("C03", M_FLUSH, trusted_base=TB_COMMON + M_TB, rule=R_M, bounds=M_BOUNDS,
+     outside=["database-level FileDb::sync_all/sync_data over the name registries (BTreeMap<String,_>: see C11)", "what fsync really does; that rabuf's flush writes every dirty chunk (dependency; its byte model is validated natively)", "SIGKILL timing"])
+prop("C16", M_FAULT, trusted_base=TB_COMMON + M_TB, rule=R_M, bounds=M_BOUNDS,
+     outside=["that a rabuf chunk stays dirty when its write fails, RLIMIT_FSIZE / ENOSPC behaviour of the OS (dependency and kernel): the abyssiniandb part - error propagation and the dirty flag - is what is decided"])
